@@ -143,6 +143,11 @@ static void one_state(const struct hist *h, const struct opscope *sc, int with_o
         if (p == addr) { hwloc_topology_t a = NULL; errno = 0; int r = hwloc_shmem_topology_adopt(&a, fd, (hwloc_uint64_t)off, addr, len, 0); MC.transitions++;
           if (r == 0) { mc_violation("c19.adopt.occupied", "%s :: adoption into an occupied range succeeds", mc_case_text()); hwloc_topology_destroy(a); }
           else if (errno != EBUSY) mc_violation("c19.adopt.occupied.errno", "%s :: occupied range: errno %d, expected EBUSY", mc_case_text(), errno);
+          /* the refused adoption leaves the occupant alone: the range must still be taken (seeded change C19-ebusy-unmap
+           * unmapped the caller's memory on this path) */
+          { void *q = mmap(addr, len, PROT_NONE, MAP_PRIVATE | MAP_ANONYMOUS | MAP_FIXED_NOREPLACE, -1, 0);
+            if (q == addr) mc_violation("c19.adopt.occupied.unmapped", "%s :: after the refused adoption the occupied range is free: the occupant was unmapped", mc_case_text());
+            else if (q != MAP_FAILED) munmap(q, len); }
           munmap(addr, len); } }
       /* foreign ABI word: the first field of the stored topology */
       { unsigned abi = 0, bad; off_t pos = off + (off_t)((SHMEM_HEADER_SIZE + sizeof(void *) - 1) & ~(sizeof(void *) - 1)) + (off_t)offsetof(struct hwloc_topology, topology_abi);
